@@ -149,7 +149,11 @@ func (l *PythonBaseLexer) HandleSpaces() {
 			}
 		}
 
-		l.ProcessNewLine(indent)
+		// blanks that run up to the end of the input are a blank last line, not the start of a logical line:
+		// the LINE_BREAK and the DEDENTs that close the module are written when the end of the input is reached
+		if l.GetInputStream().LA(1) != antlr.TokenEOF {
+			l.ProcessNewLine(indent)
+		}
 	}
 
 	l.EmitTokenByType(PythonLexerWS, antlr.LexerHidden, l.GetText())
